@@ -918,3 +918,121 @@ Proof.
   - exact (parse_print_vars nm' E Ht Hq ps).
   - exact (seq_scope nm' E' Hp ps).
 Qed.
+
+(* ================================================================== one instantaneous action, structural level *)
+Section ActionRoundTrip.
+  Variable simp : expr -> expr.
+  Variable isb : N -> bool.
+  Variable nm : naming.
+  Variable E : env.
+  Hypothesis H_fl : forall f, PddlExpr.e_fl E (nm_fl nm f) = Some f.
+  Hypothesis H_flkw : forall f, is_kw (nm_fl nm f) = false.
+  Hypothesis H_obj : forall o, e_obj E (nm_obj nm o) = Some o.
+  Hypothesis H_obj_fl : forall o, PddlExpr.e_fl E (nm_obj nm o) = None.
+  Hypothesis H_obj_q : forall o, starts_q (nm_obj nm o) = false.
+  Hypothesis H_par : forall p, e_par E (nm_par nm p) = Some p.
+  Hypothesis H_var : forall v, e_var E (nm_var nm v) = Some v.
+  Hypothesis H_par_var : forall p v, nm_par nm p <> nm_var nm v.
+  Hypothesis H_ty : forall t, e_ty E (nm_ty nm t) = Some t.
+  Hypothesis H_ty_q : forall t, starts_q (nm_ty nm t) = false.
+  Hypothesis H_num : forall s q, parse_number s = Some q -> PddlExpr.e_fl E s = None /\ e_obj E s = None.
+  Hypothesis H_effkw : forall f, is_eff_kw (nm_fl nm f) = false.
+  Hypothesis X_fl : forall f, (nm_fl nm f =? "#t") = false.
+  Hypothesis X_obj : forall o, (nm_obj nm o =? "#t") = false.
+  Hypothesis X_ty : forall t, (nm_ty nm t =? "#t") = false.
+
+  (* the "(and c1 .. cn)" precondition group, for 0, 1 or n conjuncts *)
+  Lemma pre_group cs : forallb (fun c => sfix simp c && pddl_ok [] c) cs = true ->
+    exists ss, sequence (map (fun c => print nm (simp c)) cs) = Some ss
+               /\ parse E [] (SList (Atom "and" :: ss)) = Some (mkAnd (map norm cs)).
+  Proof.
+    intro H.
+    assert (forallb (pddl_ok []) cs = true /\ map (fun c => print nm (simp c)) cs = map (print nm) cs) as [Hok Hm].
+    { induction cs as [|c cs IH]; [split; reflexivity|]. cbn [forallb map] in *. apply andb_true_iff in H as [Hc H].
+      apply andb_true_iff in Hc as [Hs Hp]. destruct (IH H) as [I1 I2]. unfold sfix in Hs. apply expr_eqb_eq in Hs.
+      rewrite Hp, I1, I2, Hs. split; reflexivity. }
+    assert (Forall (RT nm E) cs) as F.
+    { apply Forall_forall. intros c _.
+      exact (roundtrip_sc nm E H_fl H_flkw H_obj H_obj_fl H_obj_q H_par H_var H_par_var H_ty H_ty_q H_num c). }
+    destruct (rt_list nm E cs F [] Hok) as (ss & Q1 & Q2 & _). exists ss. rewrite Hm. split; [exact Q1|].
+    rewrite (parse_op E "and" OAnd) by reflexivity. cbn [scope_names map] in Q2. rewrite Q2. reflexivity.
+  Qed.
+
+  Theorem action_roundtrip (rw ep : bool) (a : paction) : pddl_action_ok simp isb a = true ->
+    exists x, print_action simp nm rw ep a = Some (Some x) /\ parse_action simp E isb x = Some (norm_action simp a).
+  Proof.
+    unfold pddl_action_ok. intro H. apply andb_true_iff in H as [H Hnd]. apply andb_true_iff in H as [H Heff].
+    apply andb_true_iff in H as [Hnf Hpre]. apply negb_true_iff in Hnf.
+    destruct (pre_group _ Hpre) as (ss & S1 & S2).
+    destruct (effects_roundtrip_full simp isb nm E H_fl H_flkw H_obj H_obj_fl H_obj_q H_par H_var H_par_var H_ty H_ty_q
+                H_num H_effkw X_fl X_obj X_ty rw (pa_effs a) Heff) as (es & E1 & E2).
+    destruct (params_roundtrip nm E H_par H_ty H_ty_q (pa_params a)) as (PA & nps & P1 & P2).
+    assert (parse_effects simp E isb (SList [Atom "and"]) = Some []) as Enil by reflexivity.
+    destruct (pa_pre a) as [|p0 pre] eqn:Hp; destruct (pa_effs a) as [|e0 effs] eqn:He;
+      unfold print_action, parse_action, norm_action; rewrite Hp, He, Hnf, ?S1, ?E1; cbn [option_map];
+      try destruct ep; (eexists; split; [reflexivity|]); cbn [ax_params ax_pre ax_eff];
+      rewrite PA, P1, P2, ?S2, ?E2; reflexivity.
+  Qed.
+End ActionRoundTrip.
+
+(* ================================================================== the re-read action behaves like the written one *)
+Section ActionSem.
+  Variable simp : expr -> expr.
+  Variable isb : N -> bool.
+  Variable sc : bool.
+  Variable I : interp.
+  (* soundness of the Simplifier on conditions (C11's theorem, a hypothesis here): it preserves "holds" *)
+  Hypothesis simp_holds : forall x, holds sc I (simp x) = holds sc I x.
+
+  Lemma ebools_holds l :
+    match ebools sc I l with Some bs => forallb (fun b => b) bs | None => false end = forallb (holds sc I) l.
+  Proof.
+    induction l as [|x l IH]; [reflexivity|]. cbn [ebools forallb]. rewrite <- IH. unfold holds.
+    destruct (eval sc x I) as [[[|]|q|o]|]; cbn [as_bool]; destruct (ebools sc I l); reflexivity.
+  Qed.
+
+  Lemma holds_EAnd l : holds sc I (EAnd l) = forallb (holds sc I) l.
+  Proof.
+    rewrite <- ebools_holds. unfold holds. rewrite eval_EAnd.
+    destruct (ebools sc I l) as [bs|]; [destruct (forallb (fun b => b) bs); reflexivity|reflexivity].
+  Qed.
+
+  Lemma holds_mkAnd l : holds sc I (mkAnd l) = forallb (holds sc I) l.
+  Proof.
+    destruct l as [|x [|y r]]; cbn [mkAnd]; [reflexivity| |apply holds_EAnd]. cbn [forallb]. rewrite andb_true_r. reflexivity.
+  Qed.
+
+  Lemma holds_conjuncts pre : forallb (holds sc I) (pre_conjuncts simp pre) = forallb (holds sc I) pre.
+  Proof.
+    induction pre as [|p pre IH]; [reflexivity|]. cbn [pre_conjuncts flat_map forallb]. fold (pre_conjuncts simp pre).
+    rewrite forallb_app, IH, <- (simp_holds p). f_equal.
+    destruct (is_true (simp p)) eqn:Ht; [apply is_true_eq in Ht; rewrite Ht; reflexivity|].
+    destruct (simp p); cbn [forallb]; rewrite ?andb_true_r; try reflexivity. symmetry. apply holds_EAnd.
+  Qed.
+
+  Lemma holds_norm cs : forallb (fun c => sfix simp c && pddl_ok [] c) cs = true ->
+    forallb (holds sc I) (map norm cs) = forallb (holds sc I) cs.
+  Proof.
+    induction cs as [|c cs IH]; [reflexivity|]. cbn [forallb map]. intro H. apply andb_true_iff in H as [Hc H].
+    apply andb_true_iff in Hc as [_ Hp]. rewrite (IH H). f_equal. unfold holds. rewrite (norm_sem sc c [] I Hp). reflexivity.
+  Qed.
+
+  Theorem action_same_behaviour (P : problem) (s : state) (a : paction) : pddl_action_ok simp isb a = true ->
+    forallb (holds sc I) (pa_pre (norm_action simp a)) = forallb (holds sc I) (pa_pre a)
+    /\ forall acts, fired sc I (pa_effs a) = Some acts ->
+         exists acts', fired sc I (pa_effs (norm_action simp a)) = Some acts'
+                       /\ spec_effects_ok P s acts' = spec_effects_ok P s acts
+                       /\ forall f args, spec_succ P s acts' f args = spec_succ P s acts f args.
+  Proof.
+    unfold pddl_action_ok. intro H. apply andb_true_iff in H as [H _]. apply andb_true_iff in H as [H Heff].
+    apply andb_true_iff in H as [_ Hpre]. split.
+    - assert (holds sc I (mkAnd (map norm (pre_conjuncts simp (pa_pre a)))) = forallb (holds sc I) (pa_pre a)) as HC
+        by (rewrite holds_mkAnd, (holds_norm _ Hpre), holds_conjuncts; reflexivity).
+      unfold norm_action. cbn [pa_pre]. destruct (pa_pre a) as [|p0 pre]; [reflexivity|]. cbv zeta.
+      destruct (is_true (mkAnd (map norm (pre_conjuncts simp (p0 :: pre))))) eqn:Ht; rewrite <- HC; cbn [forallb].
+      + apply is_true_eq in Ht. rewrite Ht. reflexivity.
+      + apply andb_true_r.
+    - intros acts Hf. cbn [norm_action pa_effs]. apply (roundtrip_same_successor simp isb sc I P s); [|exact Hf].
+      apply Forall_forall. intros e He. rewrite forallb_forall in Heff. apply Heff. exact He.
+  Qed.
+End ActionSem.
